@@ -1003,6 +1003,8 @@ def _main(argv):
         ("syn.DownstreamMF", ("R1", "U1")),
         ("fn.compute_form_data", ("O", "R3", "U3")),
     ):
+        if name not in ents:
+            continue
         tr = trace((name,), h)
         last = dict(tr[-1])
         if "repr" in last:
